@@ -454,6 +454,102 @@ pub fn run(ctx: &mut Ctx) {
         }
     }
     ctx.count("enums_executed", executed);
+
+    // the same enums for a 32-bit target: the definitions are compiled by the nightly compiler
+    // for i686-pc-windows-msvc; every variant's compiled value must be the value it was written
+    // with, and the enum must have the size and alignment of its base type there as well
+    // (in the registry and as compiled)
+    let w4_cases: Vec<&(String, Vec<(ItemPath, Module)>, Vec<EnumDefinition>)> = accepted.iter().map(|(c, _)| *c).take(ctx.tier.pick(240, 4000)).collect();
+    let w4_chunks: Vec<&[&(String, Vec<(ItemPath, Module)>, Vec<EnumDefinition>)]> = w4_cases.chunks(40).collect();
+    let w4: Vec<(Vec<(usize, String, String)>, u64, u64, Option<String>)> = w4_chunks
+        .par_iter()
+        .map(|chunk| {
+            let mut bad = vec![];
+            let mut files = vec![];
+            let mut built4 = vec![];
+            for (i, c) in chunk.iter().enumerate() {
+                match l2::build_mods(&c.0, &c.1, 4) {
+                    BuildOutcome::Built(b) => {
+                        for (mp, t) in &b.texts {
+                            files.push((mp.clone(), t.clone()));
+                        }
+                        built4.push((i, b));
+                    }
+                    BuildOutcome::Rejected(e) => bad.push((i, "C08/rejected-for-4-byte-pointers".to_string(), format!("accepted for 8-byte pointers, rejected for 4-byte pointers: {}", crate::verdict::one_line(&e.msg, 200)))),
+                    BuildOutcome::Unparsable { error, .. } => bad.push((i, "C08/emitted-enum-does-not-parse".to_string(), error)),
+                }
+            }
+            let sc = probe::scratch("e686");
+            let res = crate::layoutdump::dump(&files, &[], 4, &sc.path);
+            if let Some(f) = &res.tool_failure {
+                return (bad, 0, 0, Some(f.clone()));
+            }
+            let mut variants = 0u64;
+            let mut enums = 0u64;
+            for m in &res.discriminant_mismatches {
+                let case = chunk.iter().position(|c| m.starts_with(&format!("{}e::", c.0))).unwrap_or(0);
+                bad.push((case, "C08/discriminant-on-32-bit-target".to_string(), format!("compiled for i686-pc-windows-msvc the variant does not have the value it is written with: {m}")));
+            }
+            for e in &res.errors {
+                let case = chunk.iter().position(|c| e.contains(&format!("{}e", c.0))).unwrap_or(0);
+                bad.push((case, "C08/emitted-enum-does-not-compile-for-32-bit-target".to_string(), crate::verdict::one_line(e, 300)));
+            }
+            for (i, b) in &built4 {
+                let reg = b.ok.state.type_registry();
+                for (mp, ef) in &b.efiles {
+                    for en in &ef.enums {
+                        enums += 1;
+                        variants += en.variants.len() as u64;
+                        let path = format!("{mp}::{}", en.name);
+                        let k: usize = en.name.trim_start_matches('E').parse().unwrap_or(0);
+                        let Some(ed) = chunk[*i].2.get(k) else { continue };
+                        let base = match &ed.type_ {
+                            Type::Ident(i) => i.to_string(),
+                            _ => continue,
+                        };
+                        let want_size: u64 = match base.trim_start_matches(['u', 'i']) {
+                            "8" => 1,
+                            "16" => 2,
+                            "32" => 4,
+                            "64" => 8,
+                            "128" => 16,
+                            _ => continue,
+                        };
+                        // i686-pc-windows-msvc: 64-bit integers are 8-aligned, 128-bit ones 16-aligned
+                        let want_align = want_size;
+                        if let Some(o) = res.layouts.get(&path) {
+                            if o.size != want_size || o.align != want_align {
+                                bad.push((*i, "C08/size-or-alignment-on-32-bit-target".to_string(), format!("`{path}` over {base}: compiled size {} align {}, the base type has {want_size}/{want_align}", o.size, o.align)));
+                            }
+                        } else {
+                            bad.push((*i, "C08/enum-not-observed-on-32-bit-target".to_string(), format!("no layout for `{path}`")));
+                        }
+                        if let Some(item) = reg.get(&ItemPath::from(path.as_str())) {
+                            let (rs, ra) = (item.size().map(|x| x as u64), item.alignment().map(|x| x as u64));
+                            if rs != Some(want_size) || ra != Some(want_align) {
+                                bad.push((*i, "C08/resolved-size-or-alignment-for-4-byte-pointers".to_string(), format!("`{path}` over {base}: resolved size {rs:?} align {ra:?}, the base type has {want_size}/{want_align}")));
+                            }
+                        }
+                    }
+                }
+            }
+            (bad, enums, variants, None)
+        })
+        .collect();
+    for (chunk, (bad, enums, variants, failure)) in w4_chunks.iter().zip(w4) {
+        ctx.count("i686/enums_compiled", enums);
+        ctx.count("i686/variant_values_compared", variants);
+        if let Some(f) = failure {
+            ctx.count("i686/runs_without_result", 1);
+            eprintln!("i686 enum dump without result: {}", crate::verdict::one_line(&f, 200));
+        }
+        let mut seen = BTreeSet::new();
+        for (ci, sig, detail) in bad {
+            if seen.insert((ci, sig.clone())) {
+                ctx.violation(&sig, &detail, case_json(&chunk[ci].1, 4));
+            }
+        }
+    }
     if let Some((c, b)) = accepted.first() {
         let _ = c;
         ctx.sample(json!({"case": case_json(&b.mods, 8)}));
